@@ -36,5 +36,5 @@ FieldFacts(a) ==
     /\ FSq(SqrtM1) = FNeg(FOne)
 
 Inv  == ph = 1 => Contract(u, v)
-InvF == ph = 0 => FieldFacts(u)
+InvF == (ph = 1 /\ v = FZero) => FieldFacts(u)
 =============================================================================
